@@ -114,7 +114,9 @@ class SemVer:
                             vec.append(0)
                         vec.append(-1)
                         pre = True
-                    vec.append(ident)
+                    # A numeric identifier right after the ``-`` is lexed as part
+                    # of this token; it must still compare as a number.
+                    vec.append(int(ident) if ident.isdigit() else ident)
                 else:
                     break  # +build metadata: discard the rest
         else:
